@@ -21,6 +21,10 @@ import time
 VERIF = os.path.dirname(os.path.abspath(__file__))
 HARNESS = os.path.join(VERIF, "harness")
 REPO = os.environ.get("VERIF_REPO", "/repo")
+# where evidence and newly found replay cases go (overridden by the sensitivity scripts, which run checks
+# against scratch copies of the repository and must not touch the committed evidence)
+EVIDENCE_DIR = os.environ.get("VERIF_EVIDENCE_DIR", os.path.join(VERIF, "evidence"))
+REPLAY_OUT = os.environ.get("VERIF_REPLAY_OUT", os.path.join(VERIF, "replay"))
 NCPU = os.cpu_count() or 4
 
 GOENV = {
@@ -134,7 +138,7 @@ def build(work, pkg, race):
 def store_violation(prop, vpath):
     data = open(vpath, "rb").read()
     h = hashlib.sha256(data).hexdigest()[:16]
-    d = os.path.join(VERIF, "replay", prop)
+    d = os.path.join(REPLAY_OUT, prop)
     os.makedirs(d, exist_ok=True)
     dst = os.path.join(d, "found-" + h + ".json")
     open(dst, "wb").write(data)
@@ -359,10 +363,10 @@ def _run_check(prop, tier, cfg, seed, ti, work, t0):
         ev["coverage"]["native_fuzz_execs"] = fuzz_execs
         ev["coverage"]["evaluations"] += fuzz_execs
     if nstats > 0 or violations:
-        os.makedirs(os.path.join(VERIF, "evidence"), exist_ok=True)
-        tmp = os.path.join(VERIF, "evidence", ".%s.json.tmp" % prop)
+        os.makedirs(EVIDENCE_DIR, exist_ok=True)
+        tmp = os.path.join(EVIDENCE_DIR, ".%s.json.tmp" % prop)
         json.dump(ev, open(tmp, "w"), indent=1, sort_keys=False)
-        os.replace(tmp, os.path.join(VERIF, "evidence", prop + ".json"))
+        os.replace(tmp, os.path.join(EVIDENCE_DIR, prop + ".json"))
     if violations:
         for v in violations:
             print("VIOLATION property=%s replay=%s" % (prop, v))
